@@ -1,4 +1,5 @@
 import PycModel.Proofs.FullExpr
+import PycModel.Proofs.SwitchRefine
 /-!
 # Statements nest exactly as the C grammar says (C99 6.8)
 
@@ -29,6 +30,9 @@ inductive S where
   | ret (e : Option X)
   | brk
   | cont
+  | case_ (e : X) (s : S)
+  | default_ (s : S)
+  | switch_ (c : X) (b : S)
 inductive SL where
   | nil
   | cons (s : S) (rest : SL)
@@ -47,6 +51,9 @@ def S.ntoks : S → Nat
   | .ret (some e) => 1 + e.ntoks + 1
   | .brk => 2
   | .cont => 2
+  | .case_ e s => 1 + e.ntoks + 1 + s.ntoks
+  | .default_ s => 2 + s.ntoks
+  | .switch_ c b => 2 + c.ntoks + 1 + b.ntoks
 def SL.ntoks : SL → Nat
   | .nil => 0
   | .cons s r => s.ntoks + r.ntoks
@@ -65,6 +72,9 @@ def S.flat : S → List Tk
   | .ret (some e) => ("RETURN", "return") :: (e.flat ++ [("SEMI", ";")])
   | .brk => [("BREAK", "break"), ("SEMI", ";")]
   | .cont => [("CONTINUE", "continue"), ("SEMI", ";")]
+  | .case_ e s => ("CASE", "case") :: (e.flat ++ ("COLON", ":") :: s.flat)
+  | .default_ s => ("DEFAULT", "default") :: ("COLON", ":") :: s.flat
+  | .switch_ c b => ("SWITCH", "switch") :: ("LPAREN", "(") :: (c.flat ++ ("RPAREN", ")") :: b.flat)
 def SL.flat : SL → List Tk
   | .nil => []
   | .cons s r => s.flat ++ r.flat
@@ -88,6 +98,9 @@ def S.val (n : Nat) : S → Val
   | .ret (some e) => mk .Return (tc n) [e.val (n + 1)]
   | .brk => mk .Break (tc n) []
   | .cont => mk .Continue (tc n) []
+  | .case_ e s => mk .Case (tc n) [e.val (n + 1), .list [s.val (n + 1 + e.ntoks + 1)]]
+  | .default_ s => mk .Default (tc n) [.list [s.val (n + 2)]]
+  | .switch_ c b => mk .Switch (tc n) [c.val (n + 2), Spec.switchBodyV (b.val (n + 2 + c.ntoks + 1))]
 def SL.vals (n : Nat) : SL → List Val
   | .nil => []
   | .cons s r => s.val n :: SL.vals (n + s.ntoks) r
@@ -98,6 +111,9 @@ def S.openIf : S → Bool
   | .ifThen _ _ => true
   | .ifElse _ _ f => f.openIf
   | .while_ _ b => b.openIf
+  | .case_ _ s => s.openIf
+  | .default_ s => s.openIf
+  | .switch_ _ b => b.openIf
   | _ => false
 
 mutual
@@ -115,6 +131,9 @@ inductive WFS : S → Prop
   | retSome (e) : WFX 0 e → WFS (.ret (some e))
   | brk : WFS .brk
   | cont : WFS .cont
+  | case_ (e s) : WFX 2 e → WFS s → WFS (.case_ e s)
+  | default_ (s) : WFS s → WFS (.default_ s)
+  | switch_ (c b) : WFX 0 c → WFS b → WFS (.switch_ c b)
 inductive WFSL : SL → Prop
   | nil : WFSL .nil
   | cons (s r) : WFS s → WFSL r → WFSL (.cons s r)
@@ -230,12 +249,16 @@ def S.fuel : S → Nat
   | .ret (some e) => e.fuel + 3
   | .brk => 3
   | .cont => 3
+  | .case_ e s => e.fuel + s.fuel + 4
+  | .default_ s => s.fuel + 4
+  | .switch_ c b => c.fuel + b.fuel + 4
 def SL.fuel : SL → Nat
   | .nil => 1
   | .cons s r => s.fuel + r.fuel + 2
 end
 
-def stmtHeads : List String := ["ID", "LPAREN", "SEMI", "LBRACE", "IF", "WHILE", "DO", "RETURN", "BREAK", "CONTINUE"]
+def stmtHeads : List String :=
+  ["ID", "LPAREN", "SEMI", "LBRACE", "IF", "WHILE", "DO", "RETURN", "BREAK", "CONTINUE", "CASE", "DEFAULT", "SWITCH"]
 
 theorem S.head : ∀ st : S, ∃ t r, st.flat = t :: r ∧ t.1 ∈ stmtHeads
   | .expr e => by
@@ -252,13 +275,16 @@ theorem S.head : ∀ st : S, ∃ t r, st.flat = t :: r ∧ t.1 ∈ stmtHeads
   | .ret (some _) => ⟨_, _, rfl, by decide⟩
   | .brk => ⟨_, _, rfl, by decide⟩
   | .cont => ⟨_, _, rfl, by decide⟩
+  | .case_ .. => ⟨_, _, rfl, by decide⟩
+  | .default_ .. => ⟨_, _, rfl, by decide⟩
+  | .switch_ .. => ⟨_, _, rfl, by decide⟩
 
 theorem heads_facts (k : String) (h : k ∈ stmtHeads) :
-    k ≠ "PPPRAGMA" ∧ k ≠ "_PRAGMA" ∧ k ≠ "ELSE" ∧ k ≠ "RBRACE" ∧ k ≠ "CASE" ∧ k ≠ "DEFAULT" ∧
-    inSet (some k) declStart = false := by
+    k ≠ "PPPRAGMA" ∧ k ≠ "_PRAGMA" ∧ k ≠ "ELSE" ∧ k ≠ "RBRACE" ∧ inSet (some k) declStart = false ∧
+    (inSet (some k) startsStatementSet = true ∨ inSet (some k) startsExpressionSet = true) := by
   simp only [stmtHeads, List.mem_cons, List.mem_nil_iff, or_false] at h
-  rcases h with rfl | rfl | rfl | rfl | rfl | rfl | rfl | rfl | rfl | rfl <;>
-    exact ⟨by decide, by decide, by decide, by decide, by decide, by decide, by decide⟩
+  rcases h with rfl | rfl | rfl | rfl | rfl | rfl | rfl | rfl | rfl | rfl | rfl | rfl | rfl <;>
+    exact ⟨by decide, by decide, by decide, by decide, by decide, by decide⟩
 
 mutual
 theorem S.flat_length : ∀ st : S, st.flat.length = st.ntoks
@@ -273,6 +299,9 @@ theorem S.flat_length : ∀ st : S, st.flat.length = st.ntoks
   | .ret (some e) => by simp [S.flat, S.ntoks, FullExpr.flat_length]; omega
   | .brk => rfl
   | .cont => rfl
+  | .case_ e st => by simp [S.flat, S.ntoks, FullExpr.flat_length, S.flat_length st]; omega
+  | .default_ st => by simp [S.flat, S.ntoks, S.flat_length st]; omega
+  | .switch_ c b => by simp [S.flat, S.ntoks, FullExpr.flat_length, S.flat_length b]; omega
 theorem SL.flat_length : ∀ l : SL, l.flat.length = l.ntoks
   | .nil => rfl
   | .cons s r => by simp [SL.flat, SL.ntoks, S.flat_length s, SL.flat_length r]
@@ -293,6 +322,9 @@ theorem S.val_node : ∀ (st : S) (n : Nat), ∃ c co fs, st.val n = .node c co 
   | .ret (some _), _ => ⟨_, _, _, rfl⟩
   | .brk, _ => ⟨_, _, _, rfl⟩
   | .cont, _ => ⟨_, _, _, rfl⟩
+  | .case_ .., _ => ⟨_, _, _, rfl⟩
+  | .default_ .., _ => ⟨_, _, _, rfl⟩
+  | .switch_ .., _ => ⟨_, _, _, rfl⟩
 
 /-- what the theorem says about one statement -/
 def SOK (st : S) : Prop :=
@@ -615,7 +647,7 @@ theorem slok_cons (st : S) (r : SL) (ihs : SOK st) (ihr : SLOK r) : SLOK (.cons 
     obtain ⟨G, rfl⟩ : ∃ G, F = G + 1 := ⟨F - 1, by simp only [SL.fuel] at hF; omega⟩
     simp only [SL.fuel] at hF
     obtain ⟨t, r', hfl, hth⟩ := S.head st
-    obtain ⟨_, _, _, hnr, _, _, hnd⟩ := heads_facts t.1 hth
+    obtain ⟨_, _, _, hnr, hnd, _⟩ := heads_facts t.1 hth
     have hs0 : SeesT s (st.flat ++ (r.flat ++ ("RBRACE", "}") :: rest)) := by
       simpa [SL.flat, List.append_assoc] using hs
     have hs0' : SeesT s ((t.1, t.2) :: (r' ++ (r.flat ++ ("RBRACE", "}") :: rest))) := by simpa [hfl] using hs0
@@ -668,6 +700,194 @@ theorem sok_block (items : SL) (ih : SLOK items) : SOK (.block items) := by
       show pCompoundStatement (run G) s1 = _
       simp [pCompoundStatement, bnd, h2, h3, h4, h5, pur, tokCoord, tc, hi1, S.val]
 
+/-! ## labels and `switch` -/
+
+/-- `_parse_statement` on `case` / `default` -/
+theorem stmt_label_head (F : Nat) (s : PState) (k v : String) (toks : List Tk) (hs : SeesT s ((k, v) :: toks))
+    (hk : k = "CASE" ∨ k = "DEFAULT") :
+    ∃ s1, SeesT s1 ((k, v) :: toks) ∧ s1.idx = s.idx ∧ run (F + 1) .statement s = run F .labeledStatement s1 := by
+  obtain ⟨s1, h1, hs1, hi1, _⟩ := peekType_spec s _ hs
+  refine ⟨s1, hs1, hi1, ?_⟩
+  show pStatement (run F) s = _
+  rcases hk with rfl | rfl <;> simp [pStatement, bnd, h1]
+
+/-- the statement after a label -/
+theorem label_body (st : S) (h : SOK st) (tok : PTok) (s : PState) (rest : List Tk) (F : Nat) (hwf : WFS st)
+    (hs : SeesT s (st.flat ++ rest)) (hel : st.openIf = true → ∀ k v r, rest = (k, v) :: r → k ≠ "ELSE")
+    (hF : st.fuel + 1 ≤ F) :
+    ∃ s', labelBody (run F) tok s = .ok (st.val s.idx) s' ∧ SeesT s' rest ∧ s'.idx = s.idx + st.ntoks := by
+  obtain ⟨t, r, hfl, hth⟩ := S.head st
+  obtain ⟨_, _, _, _, _, hstart⟩ := heads_facts t.1 hth
+  have hs0 : SeesT s ((t.1, t.2) :: (r ++ rest)) := by simpa [hfl] using hs
+  -- `_starts_statement()` is true, in a state that still sees the statement
+  have hst : ∃ s1, startsStatement s = .ok true s1 ∧ SeesT s1 (st.flat ++ rest) ∧ s1.idx = s.idx := by
+    obtain ⟨s1, h1, hs1, hi1, _⟩ := peekType_spec s _ hs0
+    rcases hstart with hss | hse
+    · exact ⟨s1, by simp [startsStatement, bnd, h1, pur, hss], by simpa [hfl] using hs1, hi1⟩
+    · by_cases hss : inSet (some t.1) startsStatementSet = true
+      · exact ⟨s1, by simp [startsStatement, bnd, h1, pur, hss], by simpa [hfl] using hs1, hi1⟩
+      · obtain ⟨s2, h2, hs2, hi2, _⟩ := peekType_spec s1 _ hs1
+        refine ⟨s2, ?_, by simpa [hfl] using hs2, by omega⟩
+        simp [startsStatement, bnd, h1, pur, hss, startsExpression, h2, hse]
+  obtain ⟨s1, h1, hs1, hi1⟩ := hst
+  obtain ⟨s2, h2, hs2, hi2⟩ := body_ok st h s1 rest F hwf hs1 hel hF
+  refine ⟨s2, ?_, hs2, by omega⟩
+  rw [hi1] at h2
+  simp [labelBody, bnd, h1, h2]
+
+theorem stopC_colon : StopC "COLON" := ⟨⟨by decide, by decide⟩, by decide⟩
+
+theorem sok_case (e : X) (st : S) (ih : SOK st) : SOK (.case_ e st) := by
+  intro s rest F hwf hs hel hF
+  cases hwf with
+  | case_ _ _ hwe hws =>
+    obtain ⟨G, rfl⟩ : ∃ G, F = G + 2 := ⟨F - 2, by simp only [S.fuel] at hF; omega⟩
+    simp only [S.fuel] at hF
+    have hs0 : SeesT s (("CASE", "case") :: (e.flat ++ ("COLON", ":") :: (st.flat ++ rest))) := by
+      simpa [S.flat, List.append_assoc] using hs
+    obtain ⟨s1, hs1, hi1, heq⟩ := stmt_label_head (G + 1) s "CASE" "case" _ hs0 (.inl rfl)
+    obtain ⟨s2, h2, hs2, hi2, _⟩ := peekType_spec s1 _ hs1
+    obtain ⟨s3, h3, hs3, _, hi3, _⟩ := advance_spec s2 "CASE" "case" _ hs2
+    obtain ⟨s4, h4, hs4, hi4⟩ := (all_ok e).c hwe s3 ("COLON", ":") _ stopC_colon hs3 G (by omega)
+    obtain ⟨s5, h5, hs5, hi5⟩ := expect_same s4 "COLON" ":" _ hs4
+    obtain ⟨s6, h6, hs6, hi6⟩ := label_body st ih ⟨"CASE", "case", s2.idx⟩ s5 rest G hws hs5
+      (fun ho => hel (by simpa [S.openIf] using ho)) (by omega)
+    refine ⟨s6, ?_, hs6, by simp only [S.ntoks]; omega⟩
+    have e3 : s3.idx = s.idx + 1 := by omega
+    have e5 : s5.idx = s.idx + 1 + e.ntoks + 1 := by omega
+    have e2 : s2.idx = s.idx := by omega
+    rw [e3] at h4; rw [e5, e2] at h6
+    rw [heq]
+    show pLabeledStatement (run G) s1 = _
+    simp [pLabeledStatement, bnd, h2, h3, h4, h5, h6, pur, tokCoord, tc, hi1, hi2, S.val]
+
+theorem sok_default (st : S) (ih : SOK st) : SOK (.default_ st) := by
+  intro s rest F hwf hs hel hF
+  cases hwf with
+  | default_ _ hws =>
+    obtain ⟨G, rfl⟩ : ∃ G, F = G + 2 := ⟨F - 2, by simp only [S.fuel] at hF; omega⟩
+    simp only [S.fuel] at hF
+    have hs0 : SeesT s (("DEFAULT", "default") :: ("COLON", ":") :: (st.flat ++ rest)) := by
+      simpa [S.flat, List.append_assoc] using hs
+    obtain ⟨s1, hs1, hi1, heq⟩ := stmt_label_head (G + 1) s "DEFAULT" "default" _ hs0 (.inr rfl)
+    obtain ⟨s2, h2, hs2, hi2, _⟩ := peekType_spec s1 _ hs1
+    obtain ⟨s3, h3, hs3, _, hi3, _⟩ := advance_spec s2 "DEFAULT" "default" _ hs2
+    obtain ⟨s5, h5, hs5, hi5⟩ := expect_same s3 "COLON" ":" _ hs3
+    obtain ⟨s6, h6, hs6, hi6⟩ := label_body st ih ⟨"DEFAULT", "default", s2.idx⟩ s5 rest G hws hs5
+      (fun ho => hel (by simpa [S.openIf] using ho)) (by omega)
+    refine ⟨s6, ?_, hs6, by simp only [S.ntoks]; omega⟩
+    have e5 : s5.idx = s.idx + 2 := by omega
+    have e2 : s2.idx = s.idx := by omega
+    rw [e5, e2] at h6
+    rw [heq]
+    show pLabeledStatement (run G) s1 = _
+    simp [pLabeledStatement, bnd, h2, h3, h5, h6, pur, tokCoord, tc, hi1, hi2, S.val]
+
+open PycModel.Spec PycModel.SwitchRefine in
+/-- expression ASTs are never `case` / `default` nodes -/
+theorem xval_not_label : ∀ (e : X) (n : Nat), isLabelV (e.val n) = false
+  | .id _, _ => rfl
+  | .paren e, n => xval_not_label e (n + 1)
+  | .bin .., _ => rfl
+  | .cond .., _ => rfl
+  | .assign .., _ => rfl
+  | .comma .., _ => rfl
+
+open PycModel.Spec PycModel.SwitchRefine in
+/-- every `case` / `default` statement the parser builds is a label chain (the hypothesis of the
+`fix_switch_cases` refinement theorem) -/
+theorem sval_shape : ∀ (st : S) (n : Nat), isLabelV (st.val n) = true → ∃ k, LabelChain k (st.val n)
+  | .expr e, n, h => by simp [S.val, xval_not_label] at h
+  | .empty, _, h => by cases h
+  | .block .nil, _, h => by cases h
+  | .block (.cons _ _), _, h => by cases h
+  | .ifThen .., _, h => by cases h
+  | .ifElse .., _, h => by cases h
+  | .while_ .., _, h => by cases h
+  | .doWhile .., _, h => by cases h
+  | .ret none, _, h => by cases h
+  | .ret (some _), _, h => by cases h
+  | .brk, _, h => by cases h
+  | .cont, _, h => by cases h
+  | .switch_ .., _, h => by cases h
+  | .case_ e st, n, _ => by
+    cases hl : isLabelV (st.val (n + 1 + e.ntoks + 1)) with
+    | false => exact ⟨1, .caseLeaf _ _ _ hl⟩
+    | true =>
+      obtain ⟨k, hk⟩ := sval_shape st _ hl
+      exact ⟨k + 1, .caseStep _ _ _ _ hk⟩
+  | .default_ st, n, _ => by
+    cases hl : isLabelV (st.val (n + 2)) with
+    | false => exact ⟨1, .defLeaf _ _ hl⟩
+    | true =>
+      obtain ⟨k, hk⟩ := sval_shape st _ hl
+      exact ⟨k + 1, .defStep _ _ _ hk⟩
+
+open PycModel.Spec PycModel.SwitchRefine in
+theorem svals_shaped : ∀ (l : SL) (n : Nat), ParserShaped (SL.vals n l)
+  | .nil, _ => by intro v hv; simp [SL.vals] at hv
+  | .cons st r, n => by
+    intro v hv hl
+    simp only [SL.vals, List.mem_cons] at hv
+    rcases hv with rfl | hv
+    · exact sval_shape st n hl
+    · exact svals_shaped r _ v hv hl
+
+theorem xval_not_compound : ∀ (e : X) (n : Nat), (e.val n).isCls .Compound = false
+  | .id _, _ => rfl
+  | .paren e, n => xval_not_compound e (n + 1)
+  | .bin .., _ => rfl
+  | .cond .., _ => rfl
+  | .assign .., _ => rfl
+  | .comma .., _ => rfl
+
+open PycModel.Spec PycModel.SwitchRefine in
+/-- `fix_switch_cases` on the `Switch` node the parser has just built -/
+theorem fixSwitch_sval (co : Option Coord) (cond : Val) (b : S) (n : Nat) (s : PState) :
+    fixSwitchCases (.node .Switch co [cond, b.val n]) s = .ok (.node .Switch co [cond, switchBodyV (b.val n)]) s := by
+  cases b with
+  | block items =>
+    cases items with
+    | nil => exact fixSwitch_empty co _ cond s
+    | cons st r => exact fixSwitch_block co _ cond _ (svals_shaped (.cons st r) _) s
+  | expr e => exact fixSwitch_other co cond _ (xval_not_compound e n) s
+  | ret e => cases e <;> exact fixSwitch_other co cond _ rfl s
+  | empty => exact fixSwitch_other co cond _ rfl s
+  | ifThen _ _ => exact fixSwitch_other co cond _ rfl s
+  | ifElse _ _ _ => exact fixSwitch_other co cond _ rfl s
+  | while_ _ _ => exact fixSwitch_other co cond _ rfl s
+  | doWhile _ _ => exact fixSwitch_other co cond _ rfl s
+  | brk => exact fixSwitch_other co cond _ rfl s
+  | cont => exact fixSwitch_other co cond _ rfl s
+  | case_ _ _ => exact fixSwitch_other co cond _ rfl s
+  | default_ _ => exact fixSwitch_other co cond _ rfl s
+  | switch_ _ _ => exact fixSwitch_other co cond _ rfl s
+
+theorem sok_switch (c : X) (b : S) (ihb : SOK b) : SOK (.switch_ c b) := by
+  intro s rest F hwf hs hel hF
+  cases hwf with
+  | switch_ _ _ hwc hwb =>
+    obtain ⟨G, rfl⟩ : ∃ G, F = G + 2 := ⟨F - 2, by simp only [S.fuel] at hF; omega⟩
+    simp only [S.fuel] at hF
+    have hs0 : SeesT s (("SWITCH", "switch") :: ("LPAREN", "(") :: (c.flat ++ ("RPAREN", ")") :: (b.flat ++ rest))) := by
+      simpa [S.flat, List.append_assoc] using hs
+    obtain ⟨s1, hs1, hi1, heq⟩ := stmt_head (G + 1) s "SWITCH" "switch" _ hs0 ⟨by decide, by decide, by decide⟩
+    obtain ⟨s2, h2, hs2, _, hi2, _⟩ := advance_spec s1 "SWITCH" "switch" _ hs1
+    obtain ⟨s3, s4, s5, h3, h4, h5, hs5, hi5⟩ := paren_cond c hwc s2 (b.flat ++ rest) G (by omega) hs2
+    obtain ⟨s6, h6, hs6, hi6⟩ := body_ok b ihb s5 rest G hwb hs5 (fun ho => hel (by simpa [S.openIf] using ho)) (by omega)
+    refine ⟨s6, ?_, hs6, by simp only [S.ntoks]; omega⟩
+    have e2 : s2.idx = s.idx + 1 := by omega
+    have e5 : s5.idx = s.idx + 2 + c.ntoks + 1 := by omega
+    rw [e2] at h4; rw [e5] at h6
+    have hfix := fixSwitch_sval (tc s.idx) (c.val (s.idx + 2)) b (s.idx + 2 + c.ntoks + 1) s6
+    rw [heq]
+    simp [inSet]
+    show pSelectionStatement (run G) s1 = _
+    simp [pSelectionStatement, bnd, h2, h3, h4, h5, h6, pur, tokCoord, hi1]
+    have e1 : s.idx + 1 + 1 = s.idx + 2 := by omega
+    rw [e1]
+    exact hfix
+
 mutual
 theorem all_s : ∀ st : S, SOK st
   | .expr e => sok_expr e
@@ -681,6 +901,9 @@ theorem all_s : ∀ st : S, SOK st
   | .ret (some e) => sok_ret_some e
   | .brk => sok_brk
   | .cont => sok_cont
+  | .case_ e st => sok_case e st (all_s st)
+  | .default_ st => sok_default st (all_s st)
+  | .switch_ c b => sok_switch c b (all_s b)
 theorem all_sl : ∀ l : SL, SLOK l
   | .nil => slok_nil
   | .cons st r => slok_cons st r (all_s st) (all_sl r)
